@@ -547,7 +547,7 @@ CHECK = Check(
     rule=('likelihood: 10-300 simulations x 1-5 summaries drawn from a random mean / SPD covariance (condition 1-100), observed vector near or '
           'far (0-8 sd), variants standard, whitened (random well-conditioned matrix), Warton ridge (penalty 0-1), graphical lasso (penalty 0 '
           'and > 0), unbiased (Ghurye-Olkin), misspecification mean / variance with random gamma, and for the standard / misspecification variants also 40-150 summaries and summaries of scale 1e-3..1e4 (determinant outside the double range); transform: 1-4 parameters with two-sided, '
-          'lower-only, upper-only and no bounds, theta~ in [-12, 12] and theta strictly inside; MH: whole BSL chains of 3-30 iterations on a '
+          'lower-only, upper-only and no bounds, theta~ in [-12, 12] or up to +-100 and theta strictly inside (1e-20..1e20 away from a one-sided bound at 0); every likelihood also evaluated twice on the same arrays; MH: whole BSL chains of 3-30 iterations on a '
           'real model with a stub likelihood and a logging simulator, with and without the bounded-parameter transform, proposal scales '
           '0.05-3 (so that proposals leave the prior support), parameters listed in model or permuted order, optionally a SECOND sample() call on the same object. Non-trivial: d >= 2 with correlated summaries; a two-sided together with a '
           'one-sided bound; an MH chain with accepted and rejected moves that uses mixed bounds or had a proposal outside the prior support.'),
